@@ -101,16 +101,16 @@ theorem source_findKnown_eq_model (g : Groups) :
 theorem source_collectSeconds (g : Groups) (S ss b : List Str) :
     Gen.collectSeconds g S ss b =
       insertMany (ss.filter (fun s => hasKey s g && !S.contains s && !pfx2.isPrefixOf s)) b := by
+  simp only [pfx2_chars]
   induction ss generalizing b with
   | nil => rfl
   | cons s r ih =>
     simp only [Gen.collectSeconds, ih]
-    by_cases h : (hasKey s g && !S.contains s && !['p', 'u', 'b', 'l', 'i', 'c', '.', 'k', 'e', 'r', 'n', '2', '.'].isPrefixOf s) = true
-    · have h' : (hasKey s g && !S.contains s && !pfx2.isPrefixOf s) = true := h
-      simp only [h, if_true, List.filter_cons, h', insertMany, List.foldl_cons]
-    · have h' : ¬ (hasKey s g && !S.contains s && !pfx2.isPrefixOf s) = true := h
-      simp only [h, List.filter_cons, h', insertMany]
-      rfl
+    -- by cases on the three atoms, so that the order in which the Rust writes them does not matter
+    cases h1 : hasKey s g <;> cases h2 : S.contains s <;>
+      cases h3 : ['p', 'u', 'b', 'l', 'i', 'c', '.', 'k', 'e', 'r', 'n', '2', '.'].isPrefixOf s <;>
+      simp only [h1, h2, h3, insertMany, List.filter_cons, List.foldl_cons, Bool.and_true, Bool.and_false,
+        Bool.true_and, Bool.false_and, Bool.not_true, Bool.not_false, Bool.false_eq_true, if_true, if_false, ↓reduceIte]
 
 theorem source_collectLoop (g : Groups) (S : List Str) (k : Kerning) (a b : List Str) :
     Gen.collectLoop g S k a b =
@@ -124,19 +124,11 @@ theorem source_collectLoop (g : Groups) (S : List Str) (k : Kerning) (a b : List
         (keys secs).filter (fun s => hasKey s g && !S.contains s && !pfx2.isPrefixOf s) ++ referencedSecond g r S := by
       simp [referencedSecond, List.filter_append]
     rw [hs, insertMany_append]
-    by_cases h : (hasKey f g && !S.contains f && !['p', 'u', 'b', 'l', 'i', 'c', '.', 'k', 'e', 'r', 'n', '1', '.'].isPrefixOf f) = true
-    · have h' : (hasKey f g && !S.contains f && !pfx1.isPrefixOf f) = true := h
-      have hf : referencedFirst g ((f, secs) :: r) S = f :: referencedFirst g r S := by
-        simp only [referencedFirst, keys, List.map_cons, List.filter_cons, h', if_true]
-      rw [hf]
-      simp only [h, if_true, insertMany, List.foldl_cons]
-    · have h' : ¬ (hasKey f g && !S.contains f && !pfx1.isPrefixOf f) = true := h
-      have hf : referencedFirst g ((f, secs) :: r) S = referencedFirst g r S := by
-        simp only [referencedFirst, keys, List.map_cons, List.filter_cons, h']
-        rfl
-      rw [hf]
-      simp only [h]
-      rfl
+    simp only [referencedFirst, keys, List.map_cons, List.filter_cons, pfx1_chars]
+    cases h1 : hasKey f g <;> cases h2 : S.contains f <;>
+      cases h3 : ['p', 'u', 'b', 'l', 'i', 'c', '.', 'k', 'e', 'r', 'n', '1', '.'].isPrefixOf f <;>
+      simp only [h1, h2, h3, insertMany, List.filter_cons, List.foldl_cons, Bool.and_true, Bool.and_false,
+        Bool.true_and, Bool.false_and, Bool.not_true, Bool.not_false, Bool.false_eq_true, if_true, if_false, ↓reduceIte]
 
 /-- **source_sets_eq_model**: the two `BTreeSet`s the Rust has built when the collection loops are through, read as
     their iteration order, are the model's visiting orders -/
